@@ -83,14 +83,16 @@ MODELS = {
                          model(4, 3, MaxChain=2, toks=(PLAIN, TOK_HD), edges=('--', 'HD'), programs=CROSS)]},
     'C13': {'quick': [model(4, 2, toks=(PLAIN, TOK_COMMA, TOK_QUOTE), programs=PUNCTP[:2] + PUNCTP[3:]),
                       model(3, 3, MaxChain=2, toks=(PLAIN, TOK_COMMA, TOK_QUOTE, TOK_REL), programs=PUNCTP)],
-            'thorough': [model(5, 3, toks=(PLAIN, TOK_COMMA, TOK_QUOTE), programs=PUNCTP[:2] + PUNCTP[3:]),
-                         model(4, 4, MaxChain=2, toks=(PLAIN, TOK_COMMA, TOK_QUOTE, TOK_REL), programs=PUNCTP)]},
+            'thorough': [model(5, 2, toks=(PLAIN, TOK_COMMA, TOK_QUOTE), programs=PUNCTP[:2] + PUNCTP[3:]),
+                         model(4, 3, MaxChain=2, toks=(PLAIN, TOK_COMMA, TOK_QUOTE, TOK_REL), programs=PUNCTP)]},
     'C14': {'quick': [model(5, 2, toks=(PLAIN, TOK_HD), labels=('X', 'X-1'), programs=[[NEGRA, BIN], [NEGRA, BINB], [BIN]]),
                       model(3, 5, MaxChain=4, labels=('A', 'B'), NMin=2, programs=[[COL, UNC]])],
-            'thorough': [model(6, 3, toks=(PLAIN, TOK_HD), labels=('X', 'X-1'), programs=[[NEGRA, BIN], [NEGRA, BINB], [BIN]]),
-                         model(4, 6, MaxChain=4, labels=('A', 'B'), NMin=2, programs=[[COL, UNC]])]},
+            'thorough': [model(6, 2, toks=(PLAIN, TOK_HD), labels=('X', 'X-1'), programs=[[NEGRA, BIN], [NEGRA, BINB], [BIN]]),
+                         model(5, 3, toks=(PLAIN, TOK_HD), labels=('X',), programs=[[NEGRA, BIN]]),
+                         model(3, 6, MaxChain=4, labels=('A', 'B'), NMin=2, programs=[[COL, UNC]])]},
     'C15': {'quick': [model(4, 2, toks=(PLAIN, TOK_HD, TOK_NK), edges=('--', 'HD', 'NK'), programs=[[NEGRA]])],
-            'thorough': [model(5, 3, toks=(PLAIN, TOK_HD, TOK_NK), edges=('--', 'HD', 'NK'), programs=[[NEGRA]])]},
+            'thorough': [model(4, 3, toks=(PLAIN, TOK_HD, TOK_NK), edges=('--', 'HD', 'NK'), programs=[[NEGRA]]),
+                         model(5, 2, toks=(PLAIN, TOK_HD, TOK_NK), edges=('--', 'HD', 'NK'), programs=[[NEGRA]])]},
     'C11': {'quick': [model(4, 2, MaxChain=2, toks=(PLAIN, TOK_COMMA), programs=[[PDEL]] + [[op('delete_terminal', pos=i)] for i in (1, 2, 3, 4)]),
                       model(3, 2, MaxChain=2, toks=(PLAIN, TOK_TR1, TOK_TR2), labels=('X', 'NP-1', 'S=2-1'), programs=[[o] for o in PTBS]),
                       model(3, 2, NMin=2, programs=[[o] for o in INS + SUB + FILT])],
@@ -101,8 +103,8 @@ MODELS = {
                       model(4, 2, toks=(PLAIN, TOK_COMMA), ops=ALLOPS, MaxOps=2, NMin=4),
                       model(4, 2, toks=(PLAIN, TOK_HD), NMin=3,
                             programs=CROSS + [[NEGRA, SPLIT, RAISE, BIN], [ROOT_ATTACH, NEGRA, BIN, COL, UNC], [TOP, NEGRA, SPLIT, RAISE]])],
-            'thorough': [model(3, 3, MaxChain=2, toks=(PLAIN, TOK_COMMA, TOK_QUOTE), edges=('--', 'HD'), ops=ALLOPS, MaxOps=3),
-                         model(4, 4, toks=(PLAIN, TOK_COMMA), ops=ALLOPS, MaxOps=2),
+            'thorough': [model(3, 2, MaxChain=2, toks=(PLAIN, TOK_COMMA, TOK_QUOTE), edges=('--', 'HD'), ops=ALLOPS, MaxOps=3),
+                         model(4, 3, toks=(PLAIN, TOK_COMMA), ops=ALLOPS, MaxOps=2),
                          model(5, 3, toks=(PLAIN, TOK_HD), NMin=3,
                                programs=CROSS + [[NEGRA, SPLIT, RAISE, BIN], [ROOT_ATTACH, NEGRA, BIN, COL, UNC], [TOP, NEGRA, SPLIT, RAISE]])]},
 }
